@@ -246,10 +246,19 @@ func (x *Exec) binop(st *State, fr *Frame, in *ssa.BinOp) Val {
 				return Val{S: x.S.Define("i", "Int", "(mod "+bs+" "+pow2(n).String()+")"), T: rt}
 			}
 		}
+		if intBits(rt) <= 8 {
+			return Val{S: x.S.Define("i", "Int", bitwise8(as, bs, "and")), T: rt}
+		}
 		return Val{S: "(band " + as + " " + bs + ")", T: rt}
 	case token.OR:
+		if intBits(rt) <= 8 {
+			return Val{S: x.S.Define("i", "Int", bitwise8(as, bs, "or")), T: rt}
+		}
 		return Val{S: "(bor " + as + " " + bs + ")", T: rt}
 	case token.XOR:
+		if intBits(rt) <= 8 {
+			return Val{S: x.S.Define("i", "Int", bitwise8(as, bs, "xor")), T: rt}
+		}
 		return Val{S: "(bxor " + as + " " + bs + ")", T: rt}
 	case token.AND_NOT:
 		unsup("&^ operator")
@@ -686,4 +695,17 @@ func (x *Exec) byteOrderConst(le bool) string {
 		return "IFACE_LE"
 	}
 	return "IFACE_BE"
+}
+
+// bitwise8 is the exact bitwise and/or/xor of two 8-bit values (given as
+// mathematical integers in 0..255), bit by bit.
+func bitwise8(a, b, op string) string {
+	var terms []string
+	for i := 0; i < 8; i++ {
+		p := pow2(i).String()
+		ba := "(= (mod (div " + a + " " + p + ") 2) 1)"
+		bb := "(= (mod (div " + b + " " + p + ") 2) 1)"
+		terms = append(terms, "(ite ("+op+" "+ba+" "+bb+") "+p+" 0)")
+	}
+	return "(+ " + strings.Join(terms, " ") + ")"
 }
